@@ -38,8 +38,9 @@ MISSING = "<missing>"
 
 @st.composite
 def _plan(draw, max_len):
-    kind = draw(st.sampled_from(["f", "f", "i", "b", "d", "t", "s"]))
-    h = draw(st.sampled_from(ALL if kind in "fib" else ORD))
+    # helper first (uniform over the 16), then a kind it accepts
+    h = draw(st.sampled_from(ALL))
+    kind = draw(st.sampled_from(["f", "f", "i", "b", "d", "t", "s"] if h in ORD else ["f", "f", "i", "b"]))
     n = draw(st.one_of(st.sampled_from([0, 1, 2]), st.integers(0, max_len)))
     pool = list(POOLS[kind])
     if kind == "f" and h in ORD:
@@ -53,7 +54,9 @@ def _plan(draw, max_len):
     if h not in ("all", "any") and draw(st.integers(0, 2)):
         args["drop_na"] = draw(st.booleans())
     if h == "nth":
-        args["index"] = draw(st.integers(-n - 2, n + 2))
+        sizes = sorted({groups.count(g) for g in set(groups)} | {n})
+        edges = [e for k in sizes for e in (-k - 1, -k, -1, 0, k - 1, k)]
+        args["index"] = draw(st.one_of(st.integers(-n - 2, n + 2), st.sampled_from(edges)))
     if h == "quantile":
         args["q"] = draw(st.sampled_from([0, 0.1, 0.25, 0.5, 0.9, 1]))
     if h in ("std", "var") and draw(st.booleans()):
